@@ -15,6 +15,10 @@ Lemma nodes_canonical :
   n_un_rule nodes = mkRule None SL (mkA 0) (mkS 0 0 1) (Some (MDer (MVal SL (mkA 0) (mkS 0 0 1)) (MScr 0))) /\
   n_un_rule_m nodes = mkRule None SL (mkA 0) (mkS 0 0 1) (Some (MMul MW (MDer (MVal SL (mkA 0) (mkS 0 0 1)) (MScr 0)))).
 Proof. repeat split; reflexivity. Qed.
+(* noalias(e) forwards every call to e with unchanged array and scratch numbers: it is the identity of the protocol,
+   which is why Expr.expr has no node for it *)
+Lemma noalias_is_transparent : noalias_forwards = [(mkA 0, mkS 0 0 0); (mkA 0, mkS 0 0 0); (mkA 0, mkS 0 0 0); (mkA 0, mkS 0 0 0)].
+Proof. reflexivity. Qed.
 Definition rule_at (sd : side) (rl : rule) : Prop :=
   r_side rl = sd /\ r_a rl = match sd with SL => mkA 0 | SR => mkA 1 end /\ r_s rl = match sd with SL => mkS 0 1 0 | SR => mkS 1 1 0 end.
 Lemma policies_canonical k : let p := policy_of k in
